@@ -274,7 +274,7 @@ def si_long(case):
 
 
 # ------------------------------------------------------------------ ADC
-ADC_KINDS = ('sine', 'uniform', 'gauss', 'quant16', 'gauss_out')
+ADC_KINDS = ('gauss', 'uniform', 'sine', 'quant16', 'gauss_out')
 ADC_LENGTHS = (2, 3, 100, 9999, 10000, 20000, 2 ** 17)
 ADC_FORMS = ('ndarray', 'container', 'container+noise')
 CLAUSES = ('length', 'integer-codes', 'saturation', 'range', 'levels', 'half-step')
@@ -465,9 +465,6 @@ def run(ctx):
     ctx.pmap('si-long', si_long, long_cases, horizon=120)
 
     ns = range(1, 13)
-    adc_cases = [(k, L, n, o, f, ctx.seed) for L in ADC_LENGTHS for k in ADC_KINDS for n in ns
-                 for o in ('n', 'v') for f in ADC_FORMS]
-    if not q:
-        adc_cases += [(k, L, n, o, f, ctx.seed + j) for j in (1, 2) for L in ADC_LENGTHS for k in ADC_KINDS for n in ns
-                      for o in ('n', 'v') for f in ADC_FORMS]
+    adc_cases = [(k, L, n, o, f, ctx.seed + j) for j in range(1 if q else 3) for L in ADC_LENGTHS for k in ADC_KINDS
+                 for f in ADC_FORMS for n in ns for o in ('n', 'v')]
     ctx.pmap('adc', adc_case, adc_cases, horizon=120)
